@@ -99,13 +99,15 @@ def payloadVal (k : Name) : Val :=
 /-- columnarToWALRecords / typedBatchToWALRecords for one row: `_database`, `_measurement` first, then every
 column is stored under its own name (a column called `_measurement` overwrites the routing entry). -/
 def kTime : Name := [116, 105, 109, 101]   -- "time"
-def walRow (db m : Name) (cols : List Name) : Row :=
-  cols.map (fun c => (c, payloadVal c)) ++ [(kTime, Val.n)] ++
+/-- `rows`: for every row the names of the cells that row actually has; the column set is their union and a
+row lacking a column carries nil there. -/
+def walRow (db m : Name) (cols row : List Name) : Row :=
+  cols.map (fun c => (c, if c ∈ row then payloadVal c else Val.z)) ++ [(kTime, Val.n)] ++
     (if kUMeas ∈ cols then [] else [(kUMeas, Val.s m)]) ++
     (if kUDb ∈ cols then [] else [(kUDb, Val.s db)])
 
-def walRows (db m : Name) (cols : List Name) (nrows : Nat) : WalEntry :=
-  .rows (List.replicate nrows (walRow db m cols))
+def walRows (db m : Name) (rows : List (List Name)) : WalEntry :=
+  .rows (rows.map (walRow db m rows.flatten))
 
 /-! ## MessagePack payloads -/
 inductive MVal | s (v : Name) | i (v : Int)
@@ -168,23 +170,22 @@ def decodeTop : Top → Option Items
 
 /-- ArrowBuffer.Write: columnar records are buffered in order, row records are grouped by measurement and
 buffered at the end, a nested list aborts with an error (what was buffered stays). Returns the
-(measurement, columns, rows) triples written and whether Write returned nil. -/
-def writeTop : Items → List (Name × List Name) → List (Name × List Name × Nat) × Bool
+(measurement, rows) pairs written (a row = the cell names it carries) and whether Write returned nil. -/
+def writeTop : Items → List (Name × List Name) → List (Name × List (List Name)) × Bool
   | .nil, pend =>
-      ((dedupe (pend.map (·.1))).map (fun m =>
-          (m, ((pend.filter (·.1 = m)).head?.map (·.2)).getD [], (pend.filter (·.1 = m)).length)), true)
+      ((dedupe (pend.map (·.1))).map (fun m => (m, (pend.filter (·.1 = m)).map (·.2))), true)
   | .cons (.col m cols) is, pend =>
       let r := writeTop is pend
-      ((mname m, cols, 1) :: r.1, r.2)
+      ((mname m, [cols]) :: r.1, r.2)
   | .cons (.row m tags fields) is, pend => writeTop is (pend ++ [(mname m, tags ++ fields)])
   | .cons .bad is, pend => writeTop is pend
   | .cons .junk is, pend => writeTop is pend
   | .cons (.batch _) _, _ => ([], false)
 
-def mpWal (db : Name) (top : Top) (w : Name × List Name × Nat) : WalEntry :=
+def mpWal (db : Name) (top : Top) (w : Name × List (List Name)) : WalEntry :=
   match top with
   | .map (.col m cols) => .raw db m.strOnly cols.length
-  | _ => walRows db w.1 w.2.1 w.2.2
+  | _ => walRows db w.1 w.2
 
 /-- POST /api/v1/write/msgpack -/
 def mpHandle (c : Cfg) (hdr : Name) (top : Top) : Out :=
@@ -229,8 +230,20 @@ def parsePoints : List Point → List (Name × List Name)
   | .p m tags fields :: ps =>
       if m = [] || fields = [] then parsePoints ps else (m, tags ++ fields) :: parsePoints ps
 
-def groupOf (recs : List (Name × List Name)) (m : Name) : Name × List Name × Nat :=
-  (m, ((recs.filter (·.1 = m)).head?.map (·.2)).getD [], (recs.filter (·.1 = m)).length)
+def groupOf (recs : List (Name × List Name)) (m : Name) : Name × List (List Name) :=
+  (m, (recs.filter (·.1 = m)).map (·.2))
+
+/-- handleWrite / handleLineProtocolImport after parsing: RBAC over the distinct measurements, THEN name
+validation, then one buffer write per measurement -/
+def lpCore (c : Cfg) (db : Name) (flush : Bool) (recs : List (Name × List Name)) : Out :=
+  if recs = [] then reject .bad else
+  if c.active && !(dedupe (recs.map (·.1))).all (c.allow db) then
+    { status := .denied, db := db, checked := if c.active then dedupe (recs.map (·.1)) else [] } else
+  if !(dedupe (recs.map (·.1))).all validMeas then
+    { status := .bad, db := db, checked := if c.active then dedupe (recs.map (·.1)) else [] } else
+  { status := .ok, db := db, checked := if c.active then dedupe (recs.map (·.1)) else [],
+    keys := (dedupe (recs.map (·.1))).map (fun m => ⟨db, m⟩), flushed := flush,
+    wal := (dedupe (recs.map (·.1))).map (fun m => walRows db m (groupOf recs m).2) }
 
 def lpHandle (c : Cfg) (ep : LpEp) (hdr qdb qbucket qmeas : Name) (pts : List Point) : Out :=
   match lpDb ep hdr qdb qbucket with
@@ -238,17 +251,9 @@ def lpHandle (c : Cfg) (ep : LpEp) (hdr qdb qbucket qmeas : Name) (pts : List Po
   | some db =>
     if !validDB db then reject .bad else
     if ep = .imp && qmeas ≠ [] && !validMeas qmeas then reject .bad else
-    let recs0 := parsePoints pts
-    if recs0 = [] then reject .bad else
-    let recs := if ep = .imp && qmeas ≠ [] then recs0.filter (·.1 = qmeas) else recs0
-    if recs = [] then reject .bad else
-    let ms := dedupe (recs.map (·.1))
-    let chk := if c.active then ms else []
-    if c.active && !ms.all (c.allow db) then { status := .denied, db := db, checked := chk } else
-    if !ms.all validMeas then { status := .bad, db := db, checked := chk } else
-    let w := ms.map (groupOf recs)
-    { status := .ok, db := db, checked := chk, keys := ms.map (fun m => ⟨db, m⟩), flushed := ep = .imp,
-      wal := w.map (fun t => walRows db t.1 t.2.1 t.2.2) }
+    if parsePoints pts = [] then reject .bad else
+    lpCore c db (ep = .imp)
+      (if ep = .imp && qmeas ≠ [] then (parsePoints pts).filter (·.1 = qmeas) else parsePoints pts)
 
 /-! ## single-target endpoints: CSV / Parquet import, TLE write, TLE import -/
 inductive OneEp | csv | parquet | tle | itle
@@ -258,24 +263,48 @@ def oneDb : OneEp → (hdr qdb : Name) → Option Name
   | .tle, hdr, _ => some (orDefault hdr)
   | _, hdr, qdb => let d := if hdr = [] then qdb else hdr; if d = [] then none else some d
 
+/-- importPreamble (CSV / Parquet): database, measurement, RBAC. -/
+structure Pre where
+  status : Status
+  db : Name
+  m : Name
+  checked : List Name
+
+def importPreamble (c : Cfg) (hdr qdb mparam : Name) : Pre :=
+  let d := if hdr = [] then qdb else hdr
+  if d = [] then ⟨.bad, [], [], []⟩ else
+  if !validDB d then ⟨.bad, [], [], []⟩ else
+  if mparam = [] then ⟨.bad, [], [], []⟩ else
+  if !validMeas mparam then ⟨.bad, [], [], []⟩ else
+  if c.active && !c.allow d mparam then ⟨.denied, [], [], [mparam]⟩ else
+  ⟨.ok, d, mparam, if c.active then [mparam] else []⟩
+
+/-- handleCSVImport / handleParquetImport.  QUIRK of the current code: the preamble reports a failure as
+`return "", "", c.Status(..).JSON(..)`, and fiber's `JSON` returns nil once the body is written, so the caller's
+`if errResp != nil` never fires: after a rejected preamble the import CONTINUES with database "" and
+measurement "" (the 400/403 status stays on the response). -/
+def importOne (c : Cfg) (hdr qdb mparam : Name) (fileOk : Bool) (cols : List Name) : Out :=
+  let p := importPreamble c hdr qdb mparam
+  let rdb := if hdr = [] then qdb else hdr
+  if !fileOk then { status := .bad, db := rdb, checked := p.checked } else
+  { status := p.status, db := rdb, checked := p.checked, keys := [⟨p.db, p.m⟩], flushed := true,
+    wal := [walRows p.db p.m [cols]] }
+
 /-- `mparam`: `measurement` query parameter (csv, parquet) / `x-arc-measurement` header (tle, itle);
 `fileOk`: the uploaded body parses; `cols`: the column names found in the file. -/
-def oneHandle (c : Cfg) (ep : OneEp) (hdr qdb mparam : Name) (fileOk : Bool) (cols : List Name) (nrows : Nat) : Out :=
+def oneHandle (c : Cfg) (ep : OneEp) (hdr qdb mparam : Name) (fileOk : Bool) (cols : List Name) : Out :=
+  if ep = .csv || ep = .parquet then importOne c hdr qdb mparam fileOk cols else
   match oneDb ep hdr qdb with
   | none => reject .bad
   | some db =>
     if !validDB db then reject .bad else
-    let m := if ep = .tle || ep = .itle then (if mparam = [] then satelliteTle else mparam) else mparam
-    if m = [] then reject .bad else
+    let m := if mparam = [] then satelliteTle else mparam
     if !validMeas m then reject .bad else
+    if !fileOk then reject .bad else
     let chk := if c.active then [m] else []
-    let denied := c.active && !c.allow db m
-    -- CSV/Parquet check RBAC in the preamble, before the file is read; TLE parses first
-    if (ep = .csv || ep = .parquet) && denied then { status := .denied, db := db, checked := chk } else
-    if !fileOk then { status := .bad, db := db, checked := if ep = .csv || ep = .parquet then chk else [] } else
-    if denied then { status := .denied, db := db, checked := chk } else
+    if c.active && !c.allow db m then { status := .denied, db := db, checked := chk } else
     { status := .ok, db := db, checked := chk, keys := [⟨db, m⟩], flushed := ep ≠ .tle,
-      wal := [walRows db m cols nrows] }
+      wal := [walRows db m [cols]] }
 
 /-! ## buffer key, flush split, storage path -/
 /-- writeColumnarInternal / writeTypedColumnarRaw: `database + "/" + measurement` -/
@@ -308,24 +337,17 @@ def splitSlash : Name → List Name
       | s :: ss => (c :: s) :: ss
 
 /-! ## replication: envelope and apply -/
-inductive Parsed
-  | ok (db : Name) (inner : List UInt8)
-  | panic                       -- slice bounds out of range
-deriving DecidableEq, Repr
-
-/-- wal.ParseEnvelope(payload, "default"). `3+dbLen` is uint16 arithmetic: it wraps for dbLen ≥ 65533, the
-length test then passes and `payload[3:3+dbLen]` panics. -/
-def parseEnvelope (p : List UInt8) : Parsed :=
+/-- wal.ParseEnvelope(payload, "default"): `[0x01][len hi][len lo][db name][inner]`, recognised when the
+payload is longer than 3 bytes and `3 + dbLen ≤ len(payload)` (computed in `int`, no wrap-around); anything
+else is "no envelope": database "default", payload unchanged. -/
+def parseEnvelope (p : List UInt8) : Name × List UInt8 :=
   match p with
   | mk :: hi :: lo :: rest =>
     if mk = 1 && rest ≠ [] then
       let dbLen := hi.toNat * 256 + lo.toNat
-      let e := (3 + dbLen) % 65536
-      if e ≤ p.length then
-        (if e < 3 then .panic else .ok (rest.take dbLen) (rest.drop dbLen))
-      else .ok defaultDB p
-    else .ok defaultDB p
-  | _ => .ok defaultDB p
+      if 3 + dbLen ≤ p.length then (rest.take dbLen, rest.drop dbLen) else (defaultDB, p)
+    else (defaultDB, p)
+  | _ => (defaultDB, p)
 
 /-- envelope header written by AppendRawWithMeta (db names ≤ 255 bytes) -/
 def envelope (db : Name) (inner : List UInt8) : List UInt8 :=
